@@ -23,6 +23,10 @@ MODULE = 'SshAudit.Props.C08'
 NAMESPACE = 'SshAudit.C08'
 THEOREMS = ['ranked_order', 'containment', 'rank_total', 'rank_eq_rk', 'rankStep_doc', 'rankFold_spec', 'foldl_max_ge', 'rank_fold_max', 'rank_fold_perm',
             'text_blocks', 'json_array', 'one_block_per_target']
+# functions / statement blocks of the code whose Lean definitions are regenerated from the source on every run (harness/translate_logic.py);
+# `GenLogic.<name>_eq_model` (lean/SshAudit/Props/GenLogic*.lean) ties each to the hand-written model function the theorems above are about
+GEN_LOGIC = ['rank_step']
+
 TECHNIQUE = 'Lean 4 theorems (fold = maximum by rank, permutation invariance, totality of the rank lookup over the worker\'s possible statuses) + end-to-end fault-mix correspondence through main() -T'
 LEVEL_TEXT = ('The worker\'s result function is total over everything a scan can do, the rank fold is proved to return the highest-ranked status independent of completion order, and the stdout framing is stated exactly. '
               'Mixed healthy/failing target lists are run through the real thread pool and compared with single-target runs and with the model\'s framing and exit status.')
@@ -139,6 +143,7 @@ def run(ctx):
                                 if not got or got[0] != json.loads(sout):
                                     fail('healthy_target_lost_or_changed', dict(inp, target=n), got[:1], 'the single-target JSON')
     rate_fleet_stage(ctx, fail, cov)
+    same_host_ports_stage(ctx, fail, cov, healthy, bad, servers)
     model = ctx.driver(lines) if ctx.driver_ok else []
     for line, m, (want, inp) in zip(lines, model, expect):
         if m.get('ok') != want:
@@ -150,6 +155,86 @@ def run(ctx):
             'observations': ['framing errors (bad block size / bad length) are printed by the packet reader straight to stdout, ahead of the (then empty) block of that target']}
 
 RATE_NOTE = '(nfo) Potentially insufficient connection throttling detected'
+
+
+def _run_ports(specs, table, threads, extra):
+    import os
+    import tempfile
+    fd, path = tempfile.mkstemp(prefix='verif_targets_')
+    os.write(fd, ('\n'.join(specs) + '\n').encode())
+    os.close(fd)
+    try:
+        return fn.run_main(['-n', '--skip-rate-test', '-T', path, '--threads', str(threads)] + list(extra), fn.FakeNet(table))
+    finally:
+        os.unlink(path)
+
+
+_PORT_SINGLES = {}
+
+
+def same_host_ports_case(names, ports, ip, servers, threads, extra, fail, healthy):
+    """one host, several ports, a different service on each (a healthy one beside refusing / broken ones): every listed endpoint yields its own
+    block — the healthy ones the report a single-target run of that endpoint gives, the others an error — and the status is the highest ranked"""
+    specs = [ip if p == 22 else '%s:%d' % (ip, p) for p in ports]
+    table = {(ip, p): mc.fresh_copy(servers[n]) for n, p in zip(names, ports)}
+    code, out = _run_ports(specs, table, threads, extra)
+    inp = {'same_host_ports': True, 'targets': names, 'ports': ports, 'ip': ip, 'threads': threads, 'args': list(extra)}
+    # the references are single-target invocations in processes of their own (nothing a multi-target run left behind can reach them)
+    keys = [(n, spec, tuple(extra)) for n, spec in zip(names, specs)]
+    missing = [k_ for k_ in keys if k_ not in _PORT_SINGLES]
+    if missing:
+        _PORT_SINGLES.update(mc.isolated_singles(missing))
+    singles = [_PORT_SINGLES[k_] for k_ in keys]
+    want = 0
+    for sc, _ in singles:
+        sc = sc if sc in RANK else -1
+        if RANK.index(sc) > RANK.index(want):
+            want = sc
+    if code != want:
+        fail('exit_status_not_highest_ranked', inp, {'exit': code, 'single_target_statuses': [s_[0] for s_ in singles]}, want)
+    for m_ in DIRECT_LINES:
+        out = out.replace(m_ + '\n', '')
+    if not extra:
+        blocks = mc.split_text_blocks(out)
+        if len(blocks) != len(names):
+            fail('block_count', inp, {'blocks': len(blocks), 'stdout': out[:400]}, len(names))
+        norm = [mc.normalise_block(b) for b in blocks]
+        for n, p, (sc, sout) in zip(names, ports, singles):
+            if n in healthy and mc.normalise_block(sout) not in norm:
+                fail('healthy_target_lost_or_changed', dict(inp, target='%s:%d' % (n, p)), [b[:200] for b in norm], mc.normalise_block(sout)[:300])
+        for n, p, (sc, sout) in zip(names, ports, singles):
+            if n not in healthy and mc.normalise_block(sout) not in norm:
+                fail('error_target_block_lost_or_changed', dict(inp, target='%s:%d' % (n, p)), [b_[:200] for b_ in norm], mc.normalise_block(sout)[:300])
+    else:
+        try:
+            arr = json.loads(out)
+        except Exception:
+            return    # an error target breaks the array (known finding D05-multi): judged by the main stage
+        for n, p, (sc, sout) in zip(names, ports, singles):
+            if n in healthy:
+                got = [e for e in arr if isinstance(e, dict) and e.get('target') == '%s:%d' % (ip, p)]
+                try:
+                    ref = json.loads(sout)
+                except Exception:
+                    ref = None
+                if not got or got[0] != ref:
+                    fail('healthy_target_lost_or_changed', dict(inp, target='%s:%d' % (n, p)), got[:1], 'the single-target JSON')
+
+
+def same_host_ports_stage(ctx, fail, cov, healthy, bad, servers):
+    r = ctx.rng
+    plain_bad = [b for b in sorted(bad) if b in ('refused', 'earlyclose', 'closeafterbanner', 'trunckex', 'wrongtype', 'silent')]
+    cases = [(['A', 'refused'], [2222, 22]), (['refused', 'A'], [22, 2222]), (['earlyclose', 'G', 'refused'], [22, 2222, 2022])]
+    for _ in range(ctx.scale(4, 40)):
+        n = r.choice([2, 3, 4])
+        names = [r.choice(sorted(healthy)), r.choice(plain_bad)] + [r.choice(sorted(healthy) + plain_bad) for _ in range(n - 2)]
+        r.shuffle(names)
+        cases.append((names, r.sample([22, 2222, 2022, 8022, 22022], n)))
+    for k, (names, ports) in enumerate(cases):
+        threads = r.choice([1, 2, 3])
+        for extra in ([], ['-j']):
+            cov.add(('same-host-ports', tuple(names), tuple(ports), threads, tuple(extra)), True, tags=['same-host-ports'])
+            same_host_ports_case(names, ports, '10.8.7.1', servers, threads, extra, fail, healthy)
 
 
 def _strip_rate(text):
@@ -219,9 +304,23 @@ def rate_fleet_stage(ctx, fail, cov):
         judge_fleet(inp, r, fail)
 
 
+def _replay_ports(inp):
+    healthy = {k: v for k, v in mc.arch_servers().items() if k in ('A', 'C', 'G', 'H')}
+    servers = dict(healthy)
+    servers.update(mc.fail_servers())
+    got = []
+    same_host_ports_case(inp['targets'], inp['ports'], inp['ip'], servers, inp['threads'], inp['args'], lambda k, i, o, e: got.append((k, o, e)), healthy)
+    for g in got:
+        print(json.dumps(g, default=str)[:800])
+    print('PROPERTY FAILS' if got else 'every endpoint of the host has its own result')
+    return 1 if got else 0
+
+
 def replay(obj):
     f = obj.get('failure', obj)
     inp = f['input']
+    if inp.get('same_host_ports'):
+        return _replay_ports(inp)
     if inp.get('stage') == 'rate-fleet':
         fails = []
         r = mc.isolated_fleets([(inp['targets'], inp['threads'], inp['args'], True)])[0]
